@@ -385,6 +385,71 @@ pub fn run(cx: &mut Ctx) {
                 expect(cx, "C05|KeyPair::kx_new_server_session|differs_from_classic", ss2.rx_as_array() == &srx && ss2.tx_as_array() == &stx, case);
             }
         }
+        // own public key presented in another form: with bit 255 set (X25519 ignores it, so it is the same
+        // point), a key that belongs to another secret key, or all-zero. libsodium hashes the bytes the caller
+        // supplies; the classic and the object API must do the same in both roles, and the two ends still mirror
+        // each other when each is told the other's key in the form it was announced.
+        {
+            let kind = ["bit255_set", "belongs_to_another_secret_key", "all_zero"][i % 3];
+            let (mut cpk2, mut spk2) = (cpk, spk);
+            match kind {
+                "bit255_set" => {
+                    cpk2[31] |= 0x80;
+                    spk2[31] |= 0x80;
+                }
+                "belongs_to_another_secret_key" => {
+                    cpk2 = na::scalarmult_base(&rng.arr());
+                    spk2 = na::scalarmult_base(&rng.arr());
+                }
+                _ => {
+                    cpk2 = [0u8; 32];
+                    spk2 = [0u8; 32];
+                }
+            }
+            let case2 = || json!({"op":"kx","own_public_key_form":kind,"cpk":hx(&cpk2),"csk":hx(&csk),"spk":hx(&spk2),"ssk":hx(&ssk)});
+            // the peer's key is the genuine one only where the own key was merely re-encoded
+            let (peer_for_client, peer_for_server) = if kind == "bit255_set" { (spk2, cpk2) } else { (spk, cpk) };
+            let want_c = na::kx_client(&cpk2, &csk, &peer_for_client);
+            let want_s = na::kx_server(&spk2, &ssk, &peer_for_server);
+            let (mut rx, mut tx) = ([0u8; 32], [0u8; 32]);
+            if let (Some(Ok(())), Some((wrx, wtx))) = (call(cx, "C05|crypto_kx_client_session_keys", "crypto_kx_client_session_keys", case2, || crypto_kx_client_session_keys(&mut rx, &mut tx, &cpk2, &csk, &peer_for_client)), &want_c) {
+                expect_eq(cx, "C05|crypto_kx_client_session_keys|mismatch_vs_libsodium|own_key_form", &[rx, tx].concat(), &[*wrx, *wtx].concat(), case2);
+            }
+            let (mut rx, mut tx) = ([0u8; 32], [0u8; 32]);
+            if let (Some(Ok(())), Some((wrx, wtx))) = (call(cx, "C05|crypto_kx_server_session_keys", "crypto_kx_server_session_keys", case2, || crypto_kx_server_session_keys(&mut rx, &mut tx, &spk2, &ssk, &peer_for_server)), &want_s) {
+                expect_eq(cx, "C05|crypto_kx_server_session_keys|mismatch_vs_libsodium|own_key_form", &[rx, tx].concat(), &[*wrx, *wtx].concat(), case2);
+            }
+            let ckp2: KeyPair<StackByteArray<32>, StackByteArray<32>> = KeyPair::from_slices(&cpk2, &csk).unwrap();
+            let skp2: KeyPair<StackByteArray<32>, StackByteArray<32>> = KeyPair::from_slices(&spk2, &ssk).unwrap();
+            let pc = StackByteArray::<32>::from(peer_for_client);
+            let ps = StackByteArray::<32>::from(peer_for_server);
+            let oc = call(cx, "C05|Session::new_client", "Session::new_client", case2, || Session::<StackByteArray<32>>::new_client(&ckp2, &pc).map(|s| (*s.rx_as_array(), *s.tx_as_array())));
+            let os = call(cx, "C05|Session::new_server", "Session::new_server", case2, || Session::<StackByteArray<32>>::new_server(&skp2, &ps).map(|s| (*s.rx_as_array(), *s.tx_as_array())));
+            if let (Some(Ok((orx, otx))), Some((wrx, wtx))) = (&oc, &want_c) {
+                expect_eq(cx, "C05|Session::new_client|mismatch_vs_libsodium|own_key_form", &[*orx, *otx].concat(), &[*wrx, *wtx].concat(), case2);
+            } else {
+                cx.violation("C05|Session::new_client|decision_differs_from_libsodium|own_key_form", case2());
+            }
+            if let (Some(Ok((orx, otx))), Some((wrx, wtx))) = (&os, &want_s) {
+                expect_eq(cx, "C05|Session::new_server|mismatch_vs_libsodium|own_key_form", &[*orx, *otx].concat(), &[*wrx, *wtx].concat(), case2);
+            } else {
+                cx.violation("C05|Session::new_server|decision_differs_from_libsodium|own_key_form", case2());
+            }
+            if kind == "bit255_set" {
+                if let (Some(Ok((crx2, ctx2))), Some(Ok((srx2, stx2)))) = (&oc, &os) {
+                    expect(cx, "C05|Session|client_rx_tx_not_server_tx_rx|own_key_form", crx2 == stx2 && ctx2 == srx2, case2);
+                }
+            }
+            let k2 = call(cx, "C05|KeyPair::kx_new_client_session", "KeyPair::kx_new_client_session", case2, || ckp2.kx_new_client_session::<Vec<u8>>(&pc).map(|s| s.into_parts()));
+            if let (Some(Ok((orx, otx))), Some((wrx, wtx))) = (&k2, &want_c) {
+                expect_eq(cx, "C05|KeyPair::kx_new_client_session|mismatch_vs_libsodium|own_key_form", &[orx.as_slice(), otx.as_slice()].concat(), &[*wrx, *wtx].concat(), case2);
+            }
+            let k3 = call(cx, "C05|KeyPair::kx_new_server_session", "KeyPair::kx_new_server_session", case2, || skp2.kx_new_server_session::<Vec<u8>>(&ps).map(|s| s.into_parts()));
+            if let (Some(Ok((orx, otx))), Some((wrx, wtx))) = (&k3, &want_s) {
+                expect_eq(cx, "C05|KeyPair::kx_new_server_session|mismatch_vs_libsodium|own_key_form", &[orx.as_slice(), otx.as_slice()].concat(), &[*wrx, *wtx].concat(), case2);
+            }
+            cx.cover("kx_own_public_key_form", kind);
+        }
         cx.cover("kx", "honest");
     }
     // ---------------------------------------------------- peers chosen so that the shared secret is structured
